@@ -339,12 +339,12 @@ impl Subject {
         match req {
             Req::AddVersion { parent, data } => HttpReq::new("POST", &format!("/v1/client/add-version/{}", sp(parent)))
                 .header("X-Client-Id", &cid)
-                .header("Content-Type", CT_HISTORY)
+                .header("Content-Type", &ct_form(CT_HISTORY, data.len()))
                 .body(data.clone()),
             Req::GetChild { parent } => HttpReq::new("GET", &format!("/v1/client/get-child-version/{}", sp(parent))).header("X-Client-Id", &cid),
             Req::AddSnapshot { vid, data } => HttpReq::new("POST", &format!("/v1/client/add-snapshot/{}", sp(vid)))
                 .header("X-Client-Id", &cid)
-                .header("Content-Type", CT_SNAPSHOT)
+                .header("Content-Type", &ct_form(CT_SNAPSHOT, data.len()))
                 .body(data.clone()),
             Req::GetSnapshot => HttpReq::new("GET", "/v1/client/snapshot").header("X-Client-Id", &cid),
         }
@@ -426,6 +426,15 @@ impl Subject {
             Front::Lib(server) => lib_exec(server, client, req, false),
             _ => panic!("exec_lib_raw on http subject"),
         }
+    }
+}
+
+/// Media types may carry parameters (RFC 9110 §8.3.1): about one upload in seven adds one.
+fn ct_form(ct: &str, len: usize) -> String {
+    match len % 14 {
+        3 => format!("{ct}; charset=binary"),
+        10 => format!("{ct};version=1"),
+        _ => ct.to_string(),
     }
 }
 
